@@ -410,7 +410,29 @@ def parseVals (ty : String) (toks : List String) : Option (List Key) :=
 
 def showVals (l : List Key) : String := "[" ++ " ".intercalate (l.map showVal) ++ "]"
 
+/-- `SortByIndex` cases; the suffix says through what the harness's index comparator reads the
+    elements: the receiver (`sidx`/`iidx`), the slice the Stream was made from (`…b`), a second Stream over
+    that slice (`…c`), a value copy of the receiver's header (`sidxh`).  On the code as it is they all see
+    the storage being sorted, so the model is the same. -/
+def isIdxApi (api : String) : Bool :=
+  api = "sidx" || api = "sidxb" || api = "sidxc" || api = "sidxh" || api = "iidx" || api = "iidxb" || api = "iidxc"
+
+/-- a user comparator on `interface{}` elements that orders nil entries itself: nil first / nil last,
+    non-nil entries by `less` -/
+def nilLess {β : Type} (nilFirst : Bool) (less : β → β → Bool) : Option β → Option β → Bool
+  | none, none => false
+  | none, some _ => nilFirst
+  | some _, none => !nilFirst
+  | some x, some y => less x y
+
+def parseRecOrNil (s : String) : Option (Option Rec) :=
+  if s = "~" then some none else (parseRec s).map some
+
+def showIdsN (l : List (Nat × Option Rec)) : String :=
+  "[" ++ " ".intercalate (l.map (fun p => if p.2.isSome then toString p.1 else "~")) ++ "]"
+
 inductive Case
+  | nilcmp (api : String) (less : Option Rec → Option Rec → Bool) (recs : List (Option Rec))
   | fork (api : String) (pre : List (Desc Rec)) (sibs : List (List (Desc Rec))) (recs : List Rec)
   | types (api : String) (stacks : List (List (Desc Rec))) (recs : List Rec)
   | desc (api : String) (ds : List (Desc Rec)) (recs : List Rec)
@@ -442,10 +464,18 @@ def parseCase (line : String) : Option Case :=
       | some stacks, some recs =>
         if okTy && (api = "sl" || api = "tl") then some (.types api stacks recs) else none
       | _, _ => none
+    | ["N", api, cmp, mode] =>
+      -- interface{} sorts over lists with nil entries (`~`), comparator orders nil first (nf) / last (nl)
+      match cmpByName cmp, allSome (toks.map parseRecOrNil) with
+      | some less, some recs =>
+        if (api = "isort" || api = "iidx" || api = "iidxb" || api = "iidxc" || api = "islice" || api = "isortfn")
+            && (mode = "nf" || mode = "nl")
+        then some (.nilcmp api (nilLess (mode = "nf") less) recs) else none
+      | _, _ => none
     | ["C", api, cmp] =>
       match cmpByName cmp, allSome (toks.map parseRec) with
       | some less, some recs =>
-        if api = "sort" || api = "slice" || api = "ssort" || api = "sidx" || api = "isort" || api = "iidx"
+        if api = "sort" || api = "slice" || api = "ssort" || api = "isort" || isIdxApi api
         then some (.cmp api less recs) else none
       | _, _ => none
     | ["O", api, ty] =>
@@ -458,6 +488,12 @@ def parseCase (line : String) : Option Case :=
 /-- the model's answer: the sequence of input positions in output order (`D`, `C`), or the values (`O`);
     `mutated` is appended when an input that must stay intact changed. -/
 def runCase : Case → String
+  | .nilcmp api less recs =>
+    let input := tag recs
+    if api = "isort" then showIdsN (streamSort (liftLess less) input).1
+    else if api = "islice" then showIdsN (sortSlice (liftLess less) input)
+    else if api = "isortfn" then showIdsN (sort (liftLess less) input)
+    else showIdsN (streamSortByIndex (liftLess less) input).1
   | .fork _ pre sibs recs =>
     -- every builder (prefix first, then the siblings) sorts by the descriptor list IT holds
     let input := tag recs
@@ -534,8 +570,33 @@ def judgeSegments (stacks : List (List (Desc Rec))) (recs : List Rec) (impl : St
   | some v => v
   | none => "allowed every sort is an ordered stable permutation by its own descriptor list"
 
+/-- observation with `~` for nil entries (indistinguishable from one another): the k-th `~` of the
+    output is taken to be the k-th nil entry of the input -/
+def parseIdsN (recs : List (Option Rec)) (obs : String) : Option (List Nat) :=
+  if obs.startsWith "[" && obs.endsWith "]" then
+    let inner := ((obs.drop 1).toString.dropEnd 1).toString
+    let toks := (inner.splitOn " ").filter (· ≠ "")
+    let nilIdx := ((tag recs).filter (fun p => p.2.isNone)).map (·.1)
+    let step := fun (acc : Option (List Nat × List Nat)) (t : String) =>
+      match acc with
+      | none => none
+      | some (out, nils) =>
+        if t = "~" then
+          match nils with
+          | i :: rest => some (out ++ [i], rest)
+          | [] => none
+        else (t.toNat?).map (fun i => (out ++ [i], nils))
+    (toks.foldl step (some ([], nilIdx))).map (·.1)
+  else none
+
 def judgeCase (c : Case) (impl : String) : String :=
   match c with
+  | .nilcmp _ less recs =>
+    match parseIdsN recs impl with
+    | none => "violation no sorted list returned (or more nil entries than the input has): " ++ impl
+    | some ids =>
+      -- an id printed where the input holds nil (or vice versa) is caught by the permutation check
+      verdict less recs ids
   | .fork _ pre sibs recs => judgeSegments (pre :: sibs.map (pre ++ ·)) recs impl
   | .types _ stacks recs => judgeSegments stacks recs impl
   | .desc api ds recs =>
